@@ -62,6 +62,21 @@ func NewSolver(tt *TermTable, bin string, args ...string) (*Solver, error) {
 	return s, nil
 }
 
+// Reset clears the solver state (accumulated definitions slow z3 down).
+func (s *Solver) Reset() {
+	s.send("(reset)")
+	s.send("(set-option :global-declarations true)")
+	s.send("(set-option :produce-models true)")
+	ms := s.timeoutMs
+	s.timeoutMs = -1
+	s.SetTimeout(ms)
+	s.defined = map[int]bool{}
+	s.stack = nil
+	for _, d := range s.UFList {
+		s.send(d)
+	}
+}
+
 func NewZ3(tt *TermTable) (*Solver, error) { return NewSolver(tt, "z3", "-in") }
 
 func (s *Solver) SetTimeout(ms int) {
